@@ -298,8 +298,46 @@ PROPS = {
     },
     'C18': {
         'contract_modules': ['c18_trace'],
+        'replay': 'c18.py',
         'functions': ['treadmill.trace._zk:cleanup', 'treadmill.trace._zk:upload_batch', 'treadmill.trace.app.zk:cleanup_trace', 'treadmill.trace.app.zk:cleanup_finished'],
-        'assumptions': [],
+        'extra': [('bounded:trace-archiving-histories',
+                   bounded_replay('c18.py', 'C18', 'cleanup_trace/cleanup_finished/_zk.cleanup histories', 150, 6000))],
+        'assumptions': [
+            'CRASH POINTS: the store changes only inside zkutils.create / zkutils.ensure_deleted (each one atomic ZooKeeper '
+            'operation - dependency contracts). The safety clause of an archiving run is a call-site clause in the state '
+            'before EVERY ensure_deleted of upload_batch (the node is held, with its row, by a live snapshot that is not '
+            'the node itself), an invariant of the delete loop and of the batch loops, and a postcondition of the normal '
+            'AND of the exceptional exit of upload_batch / cleanup_trace / cleanup_finished (a failing upload or delete: '
+            'create and ensure_deleted may raise a KazooException and then change nothing). Every state a crash or a '
+            'failed write can leave behind is one of those states. Sequential: no other writer between two calls',
+            'ZooKeeper ghost store: zk_exists / zk_content per path (engine_fs), zk_mtime(path) read-only; paths are built '
+            'with the uninterpreted child-path function cp(parent, name) ( \'/\'.join of znode names ); axioms: cp is '
+            'injective (parent and name are functions of the path) and \'/trace/<shard>\' is not \'/trace.history\'; '
+            'zknamespace.join_zookeeper_path and the make_path_f builders (path.trace_shard, path.trace_history, '
+            'path.finished, path.finished_history - read off the class body of the real source on every run) are '
+            'evaluated as cp chains; get_children lists exactly the existing children, each once; create(sequence=True) '
+            'makes a NEW node next to the given path; ensure_deleted removes one node (event and finished nodes have no '
+            'children; recursive deletion not modelled); zkutils.with_retry calls its function once',
+            'snapshots: tempfile / sqlite3 / io.open / zlib are dependency contracts - the temporary file holds exactly '
+            'the rows given to executemany (the SQL text is NOT interpreted: table name and column order are read off '
+            'the source), f.read() is a token whose rows (path, data, name) are those rows, decompress(compress(x)) == x. '
+            '"retrievable" is stated as: a live node under the history directory holds a row with the node path (and, for '
+            'finished records, the decoded payload the record had); download_batch (SELECT ... GLOB) is not under '
+            'contract - the bounded stand-in opens every snapshot with sqlite and calls the real download_batch',
+            'event names: event.split(\',\', 2) and float() are uninterpreted functions of the text (split_part, '
+            'str_to_real) raising ValueError on malformed names (then nothing is written: proved); the lexicographic order '
+            'of strings is an uninterpreted relation; list.sort() on tuples is a permutation (order not used by the property)',
+            '"stay live": proved in the contrapositive - an event leaves the live trace only if its instance had no '
+            '/scheduled node when the run started and its timestamp is older than now - expiry; a finished record only if '
+            'its last-modified time is older; nothing else changes except new snapshot nodes (nothing_else / only_selected)',
+            'pruning (_zk.cleanup; cleanup_trace_history / cleanup_finished_history are one-line callers): exactly the '
+            'max_count greatest names survive unchanged; "newest" = greatest name (sequence numbers are zero padded - assumed)',
+            'prune_trace_evictions / prune_trace_service_events (not named by the statement) and the server-trace twin '
+            'treadmill.trace.server.zk are not under contract',
+            'BOUNDED stand-in (labelled bounded, never counted as proved): replay/c18.py runs random histories of the real '
+            'functions on an in-memory ZooKeeper with real sqlite snapshots, cutting each run at a random write (crash / '
+            'failed write), and evaluates the statement on the stored tree',
+        ],
     },
     'C19': {
         'contract_modules': ['c19_allocation_api'],
